@@ -65,6 +65,20 @@ class FormulaMonitor:
 
     def _after_membership(self, args, kwargs, token, result, exc):
         fn, x = args[0], args[1]
+        clash = None
+        names_e = [v.name for v in fn.engine.variables] if fn.engine else []
+        if "x" in fn.variables:
+            clash = "the term's own variables contain the reserved name x"
+        elif "x" in names_e:
+            clash = "an engine variable is named x"
+        elif set(fn.variables) & set(names_e):
+            clash = "a variable of the term has the name of an engine variable"
+        if clash:
+            self.ctx.evaluated()
+            self.ctx.hit("name clash refused" if isinstance(exc, ValueError) else "name clash NOT refused")
+            if not isinstance(exc, ValueError):
+                self.ctx.violation(f"an ambiguous variable name is not refused ({clash})", {"formula": fn.formula, "term_variables": dict(fn.variables), "engine_variables": names_e}, "ValueError", repr(exc) if exc else result)
+            return
         env = {}
         if fn.engine:
             for v in fn.engine.variables:
@@ -195,7 +209,7 @@ def ill_formed_variants(rnd, tree, text):
 
 def run(ctx):
     fl = import_library()
-    nform = ctx.scale(1500, 100_000)
+    nform = ctx.scale(4000, 100_000)
     depth = 5
     ctx.rule = (
         f"every Function.load / membership / evaluate call observed. Workload: {nform} well-typed formulas printed from random expression trees (depth <= {depth}) "
@@ -248,6 +262,20 @@ def run(ctx):
                         fn.evaluate(env)
                     except Exception:
                         pass
+            if i % 10 == 0:  # name clashes (documented: refused with ValueError)
+                for how in ("x-in-term", "x-in-engine", "override"):
+                    eng2 = fl.Engine("e", input_variables=[fl.InputVariable("x" if how == "x-in-engine" else "in0"), fl.InputVariable("in1")], output_variables=[fl.OutputVariable("out0")])
+                    g = fl.Function.create("g", "in1 + 1.000", eng2)
+                    if how == "x-in-term":
+                        g.variables["x"] = 1.0
+                    if how == "override":
+                        g.variables["in1"] = 2.0
+                    for v in eng2.variables:
+                        v.value = 0.5
+                    try:
+                        g.membership(0.25)
+                    except Exception:
+                        pass
             mon.expected.pop(text, None)
             if i % 6 == 0:
                 for what, bad in ill_formed_variants(rnd, tree, " ".join(fl.Function.format_infix(text).split())):
@@ -268,7 +296,7 @@ def run(ctx):
                 ctx.sample("formula", {"text": text, "postfix": fn.root.postfix() if fn.root else None, "variables": variables})
         probe.report(ctx)
         reach.report(ctx)
-    ctx.require("hook:Function.load", "hook:Function.membership", "hook:Function.evaluate", "compare:membership:scalar (generator tree)", "compare:membership:array (generator tree)", "compare:evaluate:scalar (generator tree)", "compare:rpn of the loaded tree's postfix", "ill-formed:missing operand", "ill-formed:wrong arity", "ill-formed:unbalanced parenthesis")
+    ctx.require("hook:Function.load", "hook:Function.membership", "hook:Function.evaluate", "compare:membership:scalar (generator tree)", "compare:membership:array (generator tree)", "compare:evaluate:scalar (generator tree)", "compare:rpn of the loaded tree's postfix", "ill-formed:missing operand", "ill-formed:wrong arity", "ill-formed:unbalanced parenthesis", "name clash refused")
     if ctx.nshards == 1:
         for k in list(F.OPERATORS) + list(F.FUNCTIONS):
             ctx.require(f"element:{k}")
